@@ -132,6 +132,11 @@ type vfSim struct {
 	wireLog  []string // normalised datagram trace (C12)
 	logWire  bool
 	owners   []string
+	// C10: call SetMtu(mtuVal) on end A after mtuAt calls
+	mtuAt       int
+	mtuVal      int
+	mtuDone     bool
+	mtuAccepted bool
 }
 
 func (s *vfSim) bad(sig, format string, args ...any) {
@@ -608,6 +613,11 @@ func (s *vfSim) run() {
 		s.now = ev.t
 		s.setClock()
 		s.steps++
+		if s.mtuVal != 0 && !s.mtuDone && s.calls >= s.mtuAt {
+			s.mtuDone = true
+			s.mtuAccepted = s.e[0].k.SetMtu(s.mtuVal) == 0
+			s.tracef("SetMtu(%d) accepted=%v", s.mtuVal, s.mtuAccepted)
+		}
 		en := s.e[ev.end]
 		switch ev.kind {
 		case 0:
